@@ -256,7 +256,7 @@ fn check_whole(r: &mut Report) {
         (lay(&[TcpOption::Mss]), lay(&[TcpOption::Mss, TcpOption::Nop])),
         (lay(&[TcpOption::Unknown(9)]), lay(&[TcpOption::Unknown(10)])),
     ];
-    let quirks = [(vec![Df, NonZeroID], vec![Df, NonZeroID]), (vec![], vec![]), (vec![Df, NonZeroID], vec![Df]), (vec![Df], vec![Df, Ecn]), (vec![Ecn, Df, NonZeroID], vec![Df, NonZeroID, Ecn]), (vec![Df], vec![ZeroID]), (vec![], vec![Df, NonZeroID]), (vec![FlowID], vec![]), (vec![], vec![FlowID])];
+    let quirks = [(vec![Df, NonZeroID], vec![Df, NonZeroID]), (vec![], vec![]), (vec![Df, NonZeroID], vec![Df]), (vec![Df], vec![Df, Ecn]), (vec![Ecn, Df, NonZeroID], vec![Df, NonZeroID, Ecn]), (vec![Df], vec![ZeroID]), (vec![], vec![Df, NonZeroID]), (vec![FlowID], vec![]), (vec![], vec![FlowID]), (vec![Ecn, Ecn, Df], vec![Df, Ecn]), (vec![Ecn, Ecn], vec![Ecn, Df])];
     let pcs = [(PayloadSize::Zero, PayloadSize::Zero), (PayloadSize::NonZero, PayloadSize::Any), (PayloadSize::Zero, PayloadSize::Any), (PayloadSize::NonZero, PayloadSize::Zero), (PayloadSize::Zero, PayloadSize::NonZero)];
     let dims = [vers.len(), ttls.len(), olens.len(), msss.len(), wins.len(), wss.len(), olayouts.len(), quirks.len(), pcs.len()];
     let total: usize = dims.iter().product();
